@@ -20,9 +20,12 @@ CONSTANTS MaxLen,      \* exhaustive up to this length
 Elems == {0, 1, 2, 3}
 Seqs(n) == UNION {[1..k -> Elems] : k \in 0..n}
 None == -1
-\* :key  id | inc (1+)      :test  eql | lt (#'<, called as test(item, key(elt)))
+\* :key  id | inc (1+)      :test  eql | lt (#'<, called as test(item, key(elt)))      :test-not  neql (#'eql) | nlt (#'<)
 K(key, e) == IF key = "inc" THEN e + 1 ELSE e
-Sat(item, e, key, test) == IF test = "lt" THEN item < K(key, e) ELSE item = K(key, e)
+Sat(item, e, key, test) == CASE test = "lt" -> item < K(key, e)
+                             [] test = "nlt" -> ~(item < K(key, e))
+                             [] test = "neql" -> item # K(key, e)
+                             [] OTHER -> item = K(key, e)
 \* predicates for the -if / -if-not variants: odd key
 Pred(e, key) == K(key, e) % 2 = 1
 Iota(n) == [i \in 1..n |-> i]
@@ -56,6 +59,20 @@ Mismatch(a, b, st1, en1, st2, en2) ==
       n == IF Len(x) < Len(y) THEN Len(x) ELSE Len(y)
       d == SelectSeq(Iota(n), LAMBDA i : x[i] # y[i])
   IN IF d # <<>> THEN st1 + d[1] - 1 ELSE IF Len(x) = Len(y) THEN None ELSE st1 + n
+\* mismatch :from-end t: the two subsequences are compared from their right ends; one plus the index (in a) of the rightmost
+\* position where they differ; when one is a proper suffix of the other, the index in a where the comparison ran out
+MismatchFE(a, b, st1, en1, st2, en2) ==
+  LET x == Sub(a, st1, en1)  y == Sub(b, st2, en2)
+      n == IF Len(x) < Len(y) THEN Len(x) ELSE Len(y)
+      d == SelectSeq(Iota(n), LAMBDA k : x[Len(x) - k + 1] # y[Len(y) - k + 1])
+  IN IF d # <<>> THEN st1 + Len(x) - d[1] + 1 ELSE IF Len(x) = Len(y) THEN None ELSE st1 + Len(x) - n
+\* named deviation (open finding C14-F5, pinned by the repository's TestMismatchFromEnd): on a difference slip returns the number
+\* of elements compared from the right end instead of one plus the index in a
+MismatchFEDev(a, b, st1, en1, st2, en2) ==
+  LET x == Sub(a, st1, en1)  y == Sub(b, st2, en2)
+      n == IF Len(x) < Len(y) THEN Len(x) ELSE Len(y)
+      d == SelectSeq(Iota(n), LAMBDA k : x[Len(x) - k + 1] # y[Len(y) - k + 1])
+  IN IF d # <<>> THEN st1 + d[1] ELSE MismatchFE(a, b, st1, en1, st2, en2)
 \* replace: copies b[st2,en2) into a[st1,en1), as many as fit
 Replace(a, b, st1, en1, st2, en2) ==
   LET y == Sub(b, st2, en2)
@@ -78,8 +95,12 @@ RECURSIVE Reduce(_, _, _)        \* (reduce #'- s :initial-value acc), left fold
 Reduce(s, acc, i) == IF i > Len(s) THEN acc ELSE Reduce(s, acc - s[i], i + 1)
 RECURSIVE ReduceR(_, _, _)       \* :from-end t, right fold: s[i] - acc
 ReduceR(s, acc, i) == IF i < 1 THEN acc ELSE ReduceR(s, s[i] - acc, i - 1)
+\* (reduce #'- s :key k :start st :end en :initial-value acc [:from-end t]): the fold over the keys of the bounded part
+Keys(s, st, en, key) == LET x == Sub(s, st, en) IN [i \in 1..Len(x) |-> K(key, x[i])]
 
 Row(fn, a, b, item, kw, t, v) == PrintT(ToJson([fn |-> fn, a |-> a, b |-> b, item |-> item, kw |-> kw, t |-> t, v |-> v]))
+\* a row that also carries the result under the named deviation of an open finding
+RowDev(fn, a, b, item, kw, t, v, dev) == PrintT(ToJson([fn |-> fn, a |-> a, b |-> b, item |-> item, kw |-> kw, t |-> t, v |-> v, dev |-> dev]))
 KW(st, en, fe, cnt, key, test) == [st |-> st, en |-> en, fe |-> fe, cnt |-> cnt, key |-> key, test |-> test, st2 |-> None, en2 |-> None]
 KW2(st1, en1, st2, en2, fe) == [st |-> st1, en |-> en1, fe |-> fe, cnt |-> None, key |-> "id", test |-> "eql", st2 |-> st2, en2 |-> en2]
 NoKW == KW(None, None, FALSE, None, "id", "eql")
@@ -92,7 +113,7 @@ Init == done = FALSE
 \* ---- item / predicate family: find position count remove substitute delete (+ -if, -if-not) ------------
 FamItem ==
   \A s \in Seqs(MaxLen) : \A b \in Bounds(Len(s)) : \A fe \in BOOLEAN : \A key \in {"id", "inc"} :
-    /\ \A test \in {"eql", "lt"} : \A cnt \in {None, 0, 1, 2} :
+    /\ \A test \in {"eql", "lt", "neql", "nlt"} : \A cnt \in (IF test \in {"eql", "lt"} THEN {None, 0, 1, 2} ELSE {None, 1}) :
          LET h == Hits(s, St(b), b[2], LAMBDA e : Sat(1, e, key, test))
              kw == KW(b[1], b[2], fe, cnt, key, test) IN
          /\ (cnt # None \/ (/\ Row("find", s, <<>>, 1, kw, "elem", Opt(FindH(s, h, fe)))
@@ -121,6 +142,8 @@ FamTwo ==
      /\ \A fe \in BOOLEAN : Row("search", a, b, 0, KW2(b1[1], b1[2], b2[1], b2[2], fe), "int",
                                Opt(Search(a, b, St(b1), b1[2], St(b2), b2[2], fe)))
      /\ Row("mismatch", a, b, 0, KW2(b1[1], b1[2], b2[1], b2[2], FALSE), "int", Opt(Mismatch(a, b, St(b1), b1[2], St(b2), b2[2])))
+     /\ RowDev("mismatch", a, b, 0, KW2(b1[1], b1[2], b2[1], b2[2], TRUE), "int", Opt(MismatchFE(a, b, St(b1), b1[2], St(b2), b2[2])),
+                Opt(MismatchFEDev(a, b, St(b1), b1[2], St(b2), b2[2])))
      /\ Row("replace", b, a, 0, KW2(b2[1], b2[2], b1[1], b1[2], FALSE), "seq", Replace(b, a, St(b2), b2[2], St(b1), b1[2]))
 \* longer patterns in longer texts (patterns that overlap themselves, a match that begins inside a failed partial match), whole
 \* sequences and a few :start2 / :end2
@@ -129,6 +152,7 @@ FamSearch ==
      \A b2 \in {<<None, None>>, <<1, None>>, <<0, Len(b) - 1>>} :
         /\ Row("search", a, b, 0, KW2(None, None, b2[1], b2[2], fe), "int", Opt(Search(a, b, 0, None, St(b2), b2[2], fe)))
         /\ (fe \/ b2[1] # None \/ Row("mismatch", a, b, 0, KW2(None, None, None, None, FALSE), "int", Opt(Mismatch(a, b, 0, None, 0, None))))
+        /\ (~fe \/ b2[1] # None \/ RowDev("mismatch", a, b, 0, KW2(None, None, None, None, TRUE), "int", Opt(MismatchFE(a, b, 0, None, 0, None)), Opt(MismatchFEDev(a, b, 0, None, 0, None))))
 FamOne ==
   \A s \in Seqs(MaxLen) :
      /\ Row("reverse", s, <<>>, 0, NoKW, "seq", Rev(s))
@@ -146,7 +170,18 @@ FamOne ==
      /\ \A fe \in BOOLEAN : Row("reduce-", s, <<>>, 10, KW(None, None, fe, None, "id", "eql"), "int",
                                  \* always a number (it can be -1, the value Opt takes for "none")
                                  [none |-> FALSE, v |-> IF fe THEN ReduceR(s, 10, Len(s)) ELSE Reduce(s, 10, 1)])
+     \* reduce with :key and bounds
+     /\ \A b \in Bounds(Len(s)) : \A key \in {"id", "inc"} : \A fe \in BOOLEAN :
+          LET ks == Keys(s, St(b), b[2], key) IN
+          (b[1] = None /\ key = "id") \/ Row("reduce-", s, <<>>, 10, KW(b[1], b[2], fe, None, key, "eql"), "int",
+                                               [none |-> FALSE, v |-> IF fe THEN ReduceR(ks, 10, Len(ks)) ELSE Reduce(ks, 10, 1)])
      /\ \A t \in Seqs(2) :
+          \* the set functions with :test #'< (called with an element of the first list, then one of the second) and :key
+          /\ \A key \in {"id", "inc"} :
+               LET In2(x) == \E j \in 1..Len(t) : K(key, x) < K(key, t[j]) IN
+               /\ Row("set-difference", s, t, 0, KW(None, None, FALSE, None, key, "lt"), "set", {s[i] : i \in {i \in 1..Len(s) : ~In2(s[i])}})
+               /\ Row("intersection", s, t, 0, KW(None, None, FALSE, None, key, "lt"), "set", {s[i] : i \in {i \in 1..Len(s) : In2(s[i])}})
+               /\ Row("subsetp", s, t, 0, KW(None, None, FALSE, None, key, "lt"), "bool", \A i \in 1..Len(s) : In2(s[i]))
           /\ Row("concatenate", s, t, 0, NoKW, "seq", s \o t)
           /\ Row("map+", s, t, 0, NoKW, "seq", [i \in 1..(IF Len(s) < Len(t) THEN Len(s) ELSE Len(t)) |-> s[i] + t[i]])
           /\ Row("append", s, t, 0, NoKW, "seq", s \o t)
@@ -154,12 +189,12 @@ FamOne ==
           /\ Row("intersection", s, t, 0, NoKW, "set", Rng(s) \cap Rng(t))
           /\ Row("set-difference", s, t, 0, NoKW, "set", Rng(s) \ Rng(t))
           /\ Row("subsetp", s, t, 0, NoKW, "bool", Rng(s) \subseteq Rng(t))
-     /\ \A key \in {"id", "inc"} :
-          LET m == SelectSeq(Iota(Len(s)), LAMBDA i : K(key, s[i]) = 2) IN
-          /\ Row("member", s, <<>>, 2, KW(None, None, FALSE, None, key, "eql"), "seq", IF m = <<>> THEN <<>> ELSE SubSeq(s, m[1], Len(s)))
+     /\ \A key \in {"id", "inc"} : \A test \in {"eql", "lt", "neql", "nlt"} :
+          LET m == SelectSeq(Iota(Len(s)), LAMBDA i : Sat(2, s[i], key, test)) IN
+          /\ Row("member", s, <<>>, 2, KW(None, None, FALSE, None, key, test), "seq", IF m = <<>> THEN <<>> ELSE SubSeq(s, m[1], Len(s)))
           \* assoc / rassoc on the alist ((e . i) ...) / ((i . e) ...): index of the first pair whose car / cdr matches
-          /\ Row("assoc", s, <<>>, 2, KW(None, None, FALSE, None, key, "eql"), "int", Opt(IF m = <<>> THEN None ELSE m[1] - 1))
-          /\ Row("rassoc", s, <<>>, 2, KW(None, None, FALSE, None, key, "eql"), "int", Opt(IF m = <<>> THEN None ELSE m[1] - 1))
+          /\ Row("assoc", s, <<>>, 2, KW(None, None, FALSE, None, key, test), "int", Opt(IF m = <<>> THEN None ELSE m[1] - 1))
+          /\ Row("rassoc", s, <<>>, 2, KW(None, None, FALSE, None, key, test), "int", Opt(IF m = <<>> THEN None ELSE m[1] - 1))
 \* ---- sorting family: short sequences exhaustively, longer ones at random ---------------------------------
 SortElems == {10, 11, 12, 20, 21, 30}
 SortSeqs == UNION {[1..k -> SortElems] : k \in 0..MaxLen} \cup RandomSubset(NLong, [1..LongLen -> SortElems])
@@ -179,6 +214,11 @@ Laws == \A s \in Seqs(2) : \A b \in Bounds(Len(s)) :
           /\ (\A cnt \in {0, 1, 2} : Len(Lim(h, cnt, TRUE)) = (IF cnt < Len(h) THEN cnt ELSE Len(h)))
           /\ Rev(Rev(s)) = s
           /\ (PosH(h, FALSE) = None) = (Len(h) = 0)
+          \* mismatch: a sequence never differs from itself, from either end; against its own proper prefix / suffix it runs out
+          /\ Mismatch(s, s, 0, None, 0, None) = None /\ MismatchFE(s, s, 0, None, 0, None) = None
+          /\ (Len(s) = 0 \/ (Mismatch(s, Tail(s), 1, None, 0, None) = None /\ MismatchFE(s, Tail(s), 0, None, 0, None) = 1))
+          \* a test and its :test-not complement partition the positions
+          /\ \A e \in Elems : \A key \in {"id", "inc"} : Sat(1, e, key, "eql") # Sat(1, e, key, "neql") /\ Sat(1, e, key, "lt") # Sat(1, e, key, "nlt")
 SortLaws == \A s \in UNION {[1..k -> SortElems] : k \in 0..3} :
           LET r == StableSort(s) IN
           /\ Len(r) = Len(s) /\ \A e \in SortElems : Cardinality({i \in 1..Len(s) : s[i] = e}) = Cardinality({i \in 1..Len(r) : r[i] = e})
